@@ -43,11 +43,12 @@ def core_schema():
               signal="auxframe", stat="auxframe", weights="auxframe", regex="opaque", ascending="bool", all_or_none="bool", filter_selected="bool", sel_n="float",
               stat_name="optstr", signal_name="optstr", weights_name="optstr", target_weights="auxframe",
               # algo parameters that are plain numbers / dicts / names (not time-indexed data)
-              limit="opaque", global_limit="bool", scale="float", bounds="opaque", weight_sum="float", covar_method="opaque", rf="float", initial_weights="opaque",
+              limit="custom", global_limit="bool", scale="float", bounds="opaque", weight_sum="float", covar_method="opaque", rf="float", initial_weights="opaque",
               risk_weights="opaque", risk_parity_method="opaque", maximum_iterations="int", tolerance="float", target_volatility="opaque", annualization_factor="float",
               PTE_volatility_cap="float", amount="float", notional_value="opaque", on_the_run="opaque", close_dates="opaque", roll_data="opaque", transactions="opaque",
               rfqs="opaque", model="opaque", measure="opaque", history="int", measures="opaque", pseudo="bool", throw_nan="bool", include_types="opaque", exclude_types="opaque",
               item="opaque", pred="opaque", if_none="bool", fmt_string="opaque", _name="opaque")
+    s.declare(limit_f="float")
     s.declare(_last_chk="optdate", _funiverse_hi="date")
     s.declare(_weights="optdict", _days_left="optfloat", rot_n="float", _rb="ref:Rebalance")
     # Backtest
